@@ -29,12 +29,13 @@ from ser import rat
 
 LEAN_MODULE = "Optyx.Props.C06"
 THEOREMS = [
+    "Optyx.Props.C06.pass_optimal_feasible",
     "Optyx.Props.C06.scipy_optimal_feasible",
-    "Optyx.Props.C06.scipy_optimal_bounds",
-    "Optyx.Props.C06.solve_optimal_feasible",
+    "Optyx.Props.C06.scipy_optimal_violation",
+    "Optyx.Props.C06.retry_depth",
     "Optyx.Props.C06.lp_optimal_success",
     "Optyx.Props.C06.lp_optimal_feasible",
-    "Optyx.Props.C06.retry_depth",
+    "Optyx.Props.C06.solve_optimal_feasible",
 ]
 ASSUMPTIONS = [
     "solver results are finite: NaN / ±inf inside result.x or result.fun are outside the rational model",
